@@ -654,7 +654,14 @@ def oracle(case, out):
     if unpredictable(case):
         # the draw itself cannot be predicted: n_iter candidates, each one the distributions can produce
         rows = sets or []
-        if len(rows) != case["n_iter"] or not all(in_support(case, p) for p in rows):
+        d_ = case["grid"][0]
+        size = None
+        if all(isinstance(v, list) for v in d_.values()):
+            size = 1
+            for v in d_.values():
+                size *= len(v)
+        want = case["n_iter"] if size is None else min(case["n_iter"], size)     # ParameterSampler caps at the grid size
+        if len(rows) != want or not all(in_support(case, p) for p in rows):
             fails.append(("cands:not-n_iter-draws-from-the-distributions", "rows %s for n_iter=%d, distributions %r" % (cands, case["n_iter"], case["grid"][0])))
     # (2) ... on the same temporal splits
     if R["splits"] != folds_tok(ref["folds"]):
